@@ -526,8 +526,17 @@ fn combine(
             (RuleOperator::Normal, RuleKind::Open | RuleKind::Unknown) => {
                 if curr_match {
                     acc = curr_eval;
-                } else if acc.is_none() {
-                    acc = curr_eval;
+                } else {
+                    // the rule does not apply today: the part of yesterday's spans that passes
+                    // midnight "continues on the following day" (statement), over what earlier
+                    // rules left — a later rule is never hidden by an earlier one
+                    acc = match (acc, curr_eval) {
+                        (Some(mut a), Some(c)) => {
+                            a.overlay(&c);
+                            Some(a)
+                        }
+                        (a, c) => a.or(c),
+                    };
                 }
                 prev_match = curr_match || prev_match;
             }
